@@ -12,7 +12,10 @@ def main():
     def extra(b, k, rng):
         e = {}
         if k % 3 == 0:
-            e["autosql"] = AUTOSQL if k % 2 else "table weird\n\"tab\there, unicode é名\"\n(string chrom; \"\" uint chromStart; \"\" uint chromEnd; \"\")"
+            # a valid schema, one with odd white space / unicode, and texts the built-in parser does not understand (a comment
+            # line, an underscore in the table name): whatever is supplied is stored verbatim
+            e["autosql"] = [AUTOSQL, "table weird\n\"tab\there, unicode é名\"\n(string chrom; \"\" uint chromStart; \"\" uint chromEnd; \"\")",
+                            "#a comment first\ntable chip_peaks\n\"peaks\"\n(\nstring chrom; \"c\"\nuint chromStart; \"s\"\nuint chromEnd; \"e\"\n)\n"][(k // 3) % 3]
             e["asq"] = "same"
         if k % 4 == 1:
             e["restmode"] = "cols"     # 0..20 extra tab-separated UTF-8 columns
